@@ -246,6 +246,80 @@ pub fn check_provenance(rep: &mut Rep, c: i128, other: i128) {
             v.push(("(c/2) + (c/2)", mk(c / 2) + mk(c / 2)));
         }
         v.push(("c.abs() or -c.abs()", if c >= 0 { mk(c).abs() } else if c != MIN_NS { -(mk(c).abs()) } else { mk(c) }));
+        // the last operation of a route is what leaves the (centuries, nanoseconds) pair behind: every operation of C01 / C02 /
+        // C04 / C11 / C14 that can *end* on this count is a route of its own (an intermediate re-normalising step hides the rest)
+        if c >= 0 {
+            v.push(("(-c).abs()", mk(-c).abs()));
+            v.push(("MAX - (MAX - c)", mk(MAX_NS) - mk(MAX_NS - c)));
+            if c <= u64::MAX as i128 * NS_S {
+                v.push(("from std", Duration::from(std::time::Duration::new((c / NS_S) as u64, (c % NS_S) as u32))));
+            }
+        } else {
+            v.push(("MIN + (c - MIN)", mk(MIN_NS) + mk(c - MIN_NS)));
+            v.push(("MIN - (MIN - c)", mk(MIN_NS) - mk(MIN_NS - c)));
+        }
+        v.push(("c + 0", mk(c) + mk(0)));
+        v.push(("c - 0", mk(c) - mk(0)));
+        v.push(("0 + c", mk(0) + mk(c)));
+        if c != MIN_NS && c != MAX_NS {
+            v.push(("0 - (-c)", mk(0) - mk(-c)));
+            v.push(("(-c) * -1", mk(-c) * -1));
+            v.push(("(-c) / -1", mk(-c) / -1));
+            v.push(("-1 * (-c)", -1 * mk(-c)));
+        }
+        for u in [Unit::Nanosecond, Unit::Second, Unit::Day, Unit::Century] {
+            let f = unit_ns(u);
+            if (MIN_NS..=MAX_NS).contains(&(c - f)) {
+                v.push(("(c - U) + Unit", mk(c - f) + u));
+                let mut t = mk(c - f);
+                t += u;
+                v.push(("(c - U) += Unit", t));
+            }
+            if (MIN_NS..=MAX_NS).contains(&(c + f)) {
+                v.push(("(c + U) - Unit", mk(c + f) - u));
+                let mut t = mk(c + f);
+                t -= u;
+                v.push(("(c + U) -= Unit", t));
+            }
+        }
+        v.push(("min(c, MAX)", mk(c).min(mk(MAX_NS))));
+        v.push(("max(c, MIN)", mk(c).max(mk(MIN_NS))));
+        if c > -NPC {
+            // (floor / ceil / round below -1 century are known finding F1)
+            v.push(("c.floor(1 ns)", mk(c).floor(mk(1))));
+            v.push(("c.round(1 ns)", mk(c).round(mk(1))));
+            if c > MIN_NS + 1 && c > -NPC + 1 {
+                v.push(("(c - 1).ceil(1 ns)", mk(c - 1).ceil(mk(1))));
+            }
+        }
+        if c.abs() < (1 << 53) {
+            v.push(("c * 1.0", mk(c) * 1.0));
+            v.push(("1.0 * c", 1.0 * mk(c)));
+        }
+        {
+            // compose(decompose)
+            let a = c.unsigned_abs();
+            let (ns_d, ns_h, ns_m, ns_s) = (NS_D as u128, NS_H as u128, NS_MIN as u128, NS_S as u128);
+            let days = a / ns_d;
+            if days <= u64::MAX as u128 {
+                let r = a % ns_d;
+                v.push(("compose(decomposed fields)", Duration::compose(if c < 0 { -1 } else { 1 }, days as u64, (r / ns_h) as u64, (r % ns_h / ns_m) as u64, (r % ns_m / ns_s) as u64, (r % ns_s / 1_000_000) as u64, (r % 1_000_000 / 1000) as u64, (r % 1000) as u64)));
+            }
+        }
+        // an epoch difference that equals c (C04: (e + d) - e == d exactly in one scale)
+        for base in [0i128, -NS_D, 3 * NPC - 5] {
+            if (MIN_NS + NS_D..=MAX_NS - NS_D).contains(&(base + c)) && (MIN_NS + NS_D..=MAX_NS - NS_D).contains(&c) {
+                let e0 = hifitime::Epoch::from_tai_duration(mk(base));
+                v.push(("(e + c) - e", (e0 + mk(c)) - e0));
+                v.push(("e1 - e0", hifitime::Epoch::from_tai_duration(mk(base + c)) - e0));
+            }
+        }
+        if c.abs() <= 100 * NPC {
+            // text and serde round trips (C11: identical duration)
+            if let Ok(d) = <Duration as std::str::FromStr>::from_str(&format!("{}", mk(c))) {
+                v.push(("from_str(Display)", d));
+            }
+        }
         v
     });
     match r {
@@ -282,7 +356,7 @@ pub fn run(cfg: &Cfg, rep: &mut Rep) {
     let sh = rep.shard as usize;
     let n = NSHARDS as usize;
     for (i, &x) in lat.iter().enumerate() {
-        if i % n != sh {
+        if i % n != sh || cfg.fuzz {
             continue;
         }
         let a = mk(x);
@@ -296,7 +370,7 @@ pub fn run(cfg: &Cfg, rep: &mut Rep) {
     }
     // whole centuries, whole units and their neighbours through every route
     for k in -40i128..=40 {
-        if (k + 40) as usize % n != sh {
+        if (k + 40) as usize % n != sh || cfg.fuzz {
             continue;
         }
         for dlt in [0i128, 1, -1] {
@@ -316,6 +390,7 @@ pub fn run(cfg: &Cfg, rep: &mut Rep) {
     let mut r = Rng::new(cfg.seed, 0x0300 + sh as u64);
     let nrand = cfg.budget(10_000_000);
     for k in 0..nrand {
+        let k = cfg.k(k, &mut r);
         let ca = gen::rand_count(&mut r, &lat);
         let a = mk(ca);
         let (c, ns) = canon(ca);
